@@ -46,6 +46,11 @@ let stage_of_token digits t =
   | "pm" -> digits := arg; matchD (nat_of_int m) (nat_of_int arg)
   | _ -> raise NoModel
 
+(* be=1 (stream with ByteEnable and Error): a model digit is the pair (byte, its enable bit) encoded as
+   byte + 256 * enable, the model meta word is txid + 8 * error; the machines never look inside a digit or
+   a meta word, so this is the statement "enables and error travel with their byte / beat" *)
+let be_mode = ref false
+
 let flush_case oc desc lines =
   (* lines: reversed list of (lhs, cyc) *)
   let lines = List.rev lines in
@@ -54,10 +59,18 @@ let flush_case oc desc lines =
   | Some d ->
     let evs = runChain d (List.map snd lines) in
     List.iter2 (fun (lhs, _) e ->
-        if e.e_out.bvalid then
+        if e.e_out.bvalid then begin
+          if !be_mode then begin
+            let vs = List.map int_of_n e.e_out.bdata in
+            let ds = String.concat "." (List.map (fun v -> if v = xd then "X" else string_of_int (v land 255)) vs) in
+            let bs = String.concat "" (List.map (fun v -> if v = xd then "X" else if v lsr 8 <> 0 then "1" else "0") vs) in
+            let m = int_of_n e.e_out.bmeta in
+            Printf.fprintf oc "%s | %s 1 %s %s %d %s %d\n" lhs (b2s e.e_rin) ds (b2s e.e_out.beop) (m land 7) bs (m lsr 3)
+          end else
           Printf.fprintf oc "%s | %s 1 %s %s %d\n" lhs (b2s e.e_rin) (string_of_digits e.e_out.bdata)
             (b2s e.e_out.beop) (int_of_n e.e_out.bmeta)
-        else Printf.fprintf oc "%s | %s 0 - - -\n" lhs (b2s e.e_rin)) lines evs
+        end
+        else Printf.fprintf oc "%s | %s 0 %s\n" lhs (b2s e.e_rin) (if !be_mode then "- - - - -" else "- - -")) lines evs
 
 let () =
   let ic = open_in Sys.argv.(1) and oc = open_out Sys.argv.(2) in
@@ -72,8 +85,9 @@ let () =
        | "C" :: _id :: rest ->
          finish ();
          let chain = ref "-" and digits = ref 1 and eb = ref false in
+         be_mode := false;
          List.iter (fun t -> match kv t with Some ("chain", v) -> chain := v | Some ("min", v) -> digits := int_of_string v
-                                            | Some ("eb", v) -> eb := (v = "1") | _ -> ()) rest;
+                                            | Some ("eb", v) -> eb := (v = "1") | Some ("be", v) -> be_mode := (v = "1") | _ -> ()) rest;
          (try
             if !eb then raise NoModel;   (* streams with EmptyBits: no Coq machine, list oracle only *)
             let l = if !chain = "-" then [] else List.map (stage_of_token digits) (String.split_on_char ',' !chain) in
@@ -81,6 +95,14 @@ let () =
             output_string oc (line ^ "\n")
           with NoModel -> desc := None; nomodel := true; output_string oc (line ^ " nomodel\n"))
        | "E" :: _ when !nomodel -> output_string oc (line ^ "\n")
+       | [ "E"; v; d; e; m; r; ctl; be; err ] when !be_mode ->
+         let ctlbits = if ctl = "-" then [] else List.init (String.length ctl) (fun i -> ctl.[i] = '1') in
+         let ds = List.map int_of_string (String.split_on_char '.' d) in
+         let syms = List.mapi (fun i x -> n_of_int (x + (if i < String.length be && be.[i] = '1' then 256 else 0))) ds in
+         let c = { c_ctl = ctlbits;
+                   c_in = { bvalid = (v = "1"); bdata = syms; beop = (e = "1"); bmeta = n_of_int (int_of_string m + 8 * int_of_string err) };
+                   c_rdy = (r = "1") } in
+         lines := (lhs, c) :: !lines
        | [ "E"; v; d; e; m; r; ctl ] ->
          if !nomodel then output_string oc (line ^ "\n")
          else begin
